@@ -346,6 +346,10 @@ func (p *c10Peer) onSegmentLocked(g *wire.Segment) {
 }
 
 func (p *c10Peer) sendDataLocked(s *c10PeerSess, payload []byte) {
+	if p.udp && s.peerUnAck > s.nextSend {
+		// hostile in-order data consumed sequence numbers at the real endpoint: continue where it is
+		s.nextSend = s.peerUnAck
+	}
 	p.sendSegLocked(wire.Meta{Proto: p.protoData(), SessionID: s.id, Seq: s.nextSend, UnAck: s.nextRecv, Window: 256}, payload)
 	s.nextSend++
 }
